@@ -3,6 +3,7 @@
 package props
 
 import (
+	"math"
 	"net"
 
 	"github.com/gokrazy/rsync/rsynccmd"
@@ -20,6 +21,18 @@ func setReadWindow(n int) {
 		return
 	}
 	rsynccmd.VerifSetReadWindow(func(bl, v int32) int32 { return max(3*bl, int32(n)) })
+}
+
+// setMinBlock lowers the minimum delta block length to n; n <= 0 restores the
+// shipped value.
+func setMinBlock(n int) {
+	if n <= 0 {
+		rsynccmd.VerifSetBlockLength(nil)
+		return
+	}
+	rsynccmd.VerifSetBlockLength(func(fileLen int64, v int32) int32 {
+		return max(int32(math.Sqrt(float64(fileLen))), int32(n))
+	})
 }
 
 func setListeners(f func([]net.Listener) []net.Listener) { rsynccmd.VerifSetListeners(f) }
